@@ -19,11 +19,12 @@ package adapter
 //@   ensures[C16] tracePath(unprefixed(denom, sourcePort, sourceChannel)) != "" ==> err != nil
 
 // The ICS-20 packet data as a function of the packet bytes. The codec (gogoproto JSON) is outside the
-// verifier's reach: this contract is assumed, and says only that decoding is a function of the bytes.
+// verifier's reach: isICS20 / ics20Of stand for what transfertypes.ModuleCdc.UnmarshalJSON makes of the
+// bytes (engine model of that one call). The function itself is verified: it returns the codec's answer
+// and nothing else - no further validation, no reclassification of errors.
 //@ smt (declare-fun isICS20 (BytesV) Bool)
 //@ smt (declare-fun ics20Of (BytesV) T_cosmos_ibc_go_v8_modules_apps_transfer_types_FungibleTokenPacketData)
 //@ func GetICS20PacketData(data) (pkt, err)
-//@   opaque
 //@   ensures[base] (err == nil) == isICS20(bytesof(data))
 //@   ensures[base] err == nil ==> pkt == ics20Of(bytesof(data))
 
